@@ -22,8 +22,10 @@ var evC18 = ev.New("C18", "valid UTF-8 cells (0-40 bytes) over ASCII letters in 
 	"non-trivial = ilike on a frame holding a non-ASCII cell, or a cell longer than its predecessor by more than the initial buffer; distinct = FNV-64 of (cells, comparator, pattern)")
 
 var likeAlphabet = []string{"a", "b", "c", "A", "B", "C", "x", "Z", "0", "1", " ", "ä", "Ä", "é", "ß", "ñ", "Ω", "ω", "ж", "Ж",
-	"ı", "ſ", "ɐ", "ɑ", "ⱥ", "Ⱥ", "µ", "K", "k", "K", "ǅ", "ǆ", "Ǆ", "\u0080", "\u0085", "\u009f", " ", "😀", "日", "ǰ", "ŉ", "İ", "i", "I", "_", "-"}
-var likeMeta = []string{".", "*", "+", "?", "(", ")", "[", "]", "{", "}", "^", "$", "\\", ".*", "[a-c]", "(a|b)", "\\d", "a+"}
+	"ı", "ſ", "ɐ", "ɑ", "ⱥ", "Ⱥ", "µ", "K", "k", "K", "ǅ", "ǆ", "Ǆ", "\u0080", "\u0085", "\u009f", " ", "😀", "日", "ǰ", "ŉ", "İ", "i", "I", "_", "-",
+	"$", ".", "*", "(", "^", "+", "\\", "[", "$"}
+var likeMeta = []string{".", "*", "+", "?", "(", ")", "[", "]", "{", "}", "^", "$", "\\", ".*", "[a-c]", "(a|b)", "\\d", "a+",
+	"\\$", "\\^", "\\.", "\\(", "\\\\", "\\w+", "\\x{e9}", "(?s).", "\\pL", "$", "^"}
 
 func genLikeCell(t *rapid.T) string {
 	n := rapid.IntRange(0, 14).Draw(t, "celllen")
@@ -98,7 +100,16 @@ func propC18(t *rapid.T) {
 		}
 		// pattern
 		var core string
-		switch rapid.IntRange(0, 6).Draw(t, "patkind") {
+		switch rapid.IntRange(0, 7).Draw(t, "patkind") {
+		case 7: // a substring of a cell, quoted so that its metacharacters are literal (regexp path, anchors matter)
+			var src string
+			for tries := 0; tries < 5; tries++ {
+				if p := cells[rapid.IntRange(0, n-1).Draw(t, "srccellq")]; p != nil {
+					src = *p
+					break
+				}
+			}
+			core = regexp.QuoteMeta(flipCase(t, runeSub(t, src)))
 		case 0, 1, 2, 3: // derived from a cell
 			var src string
 			for tries := 0; tries < 5; tries++ {
@@ -114,8 +125,14 @@ func propC18(t *rapid.T) {
 			core = rapid.SampledFrom([]string{"", "%", "a%b", "%a%b%", "a%%b"}).Draw(t, "special")
 		case 6: // with regexp metacharacters, valid or not
 			core = genLikeCell(t)
-			pos := rapid.IntRange(0, len([]rune(core))).Draw(t, "metapos")
 			rs := []rune(core)
+			pos := rapid.IntRange(0, len(rs)).Draw(t, "metapos")
+			switch rapid.IntRange(0, 3).Draw(t, "metaend") {
+			case 0:
+				pos = len(rs) // at the very end: interacts with the end anchor
+			case 1:
+				pos = 0 // at the very start: interacts with the start anchor
+			}
 			core = string(rs[:pos]) + rapid.SampledFrom(likeMeta).Draw(t, "meta") + string(rs[pos:])
 		}
 		pattern := core
